@@ -7,6 +7,7 @@ import (
 	"io"
 	"log"
 	logslog "log/slog"
+	"runtime"
 	"time"
 
 	"github.com/hedzr/is"
@@ -358,7 +359,11 @@ func (w *W) exec(task int, op *scen.Op) {
 	case "write_thru":
 		w.logDepth[task]++
 		if x, ok := l.(slog.LogSlogAware); ok {
-			x.WriteThru(w.buildCtx(op.Ctx), slog.Level(op.Lvl), w.timeOf(op.T), 0, op.Msg, slog.Attrs(w.attrs(op.Args)))
+			var pc uintptr
+			if op.Kind == "pc" {
+				pc = fixedPC()
+			}
+			x.WriteThru(w.buildCtx(op.Ctx), slog.Level(op.Lvl), w.timeOf(op.T), pc, op.Msg, slog.Attrs(w.attrs(op.Args)))
 		}
 		w.logDepth[task]--
 	case "slog_handler":
@@ -799,3 +804,13 @@ func (w *W) execAdapter(task int, op *scen.Op) {
 }
 
 var _ = log.Println
+
+// fixedPC is the program counter of one fixed call site, so that records issued
+// through WriteThru carry the same caller information every time.
+//
+//go:noinline
+func fixedPC() uintptr {
+	var pcs [1]uintptr
+	runtime.Callers(1, pcs[:])
+	return pcs[0]
+}
